@@ -591,6 +591,15 @@ func runCmd(c *Cmd) {
 		opRFault(pi, c)
 	case "wfault":
 		opWFault(pi, c)
+	case "decref":
+		// the reference bytes (possibly written under another schema version) into both checked decoders
+		ref := bytesFromInts(c.Ref)
+		for m, api := range []string{"UnmarshalBebop", "DecodeBebop"} {
+			begin(c.Cid, m, &Event{Ev: "dec", API: api, Srcs: []string{"ref"}})
+			e := decodeEvent(pi, c, m, api, ref)
+			e.Srcs = []string{"ref"}
+			emit(e)
+		}
 	case "stream":
 		opStream(pi, c)
 	case "evolve":
